@@ -116,6 +116,25 @@ CLAIMED = {
              "bytes of a packet reassembled from the copies) and by instance values built with different insertion orders and set histories.",
         technique="Coq proof (Permutation / sorting uniqueness; structural identity) + implementation checks with a recording Hasher",
         ref="DESIGN.md section 6, C16"),
+    "C13": dict(
+        text="Kernel-checked theorems over a transliteration of the record store (with a model of the radix_trie calls used) and "
+             "build_reply: the length-prefixed key of one name is a byte prefix of another's iff the names are in the label-suffix "
+             "relation (and keys are injective); every store reachable by ANY operation sequence keeps records under their owner's "
+             "key; each answer is a registered authoritative record under a question name that matches type and class, every "
+             "registered record equal to a question name that matches is included, id / response flag / unicast / no-reply are as "
+             "stated, additional records are registered address records of SRV targets. Tied to /repo by bounded-exhaustive small "
+             "stores over a collision alphabet x all questions plus seeded operation sequences, with a python label-wise matcher.",
+        technique="Coq proof (prefix-code lemma, store invariant by induction over operations, reply soundness/completeness) + model/implementation correspondence",
+        ref="DESIGN.md section 6, C13"),
+    "C20": dict(
+        text="PARTIAL. Kernel-checked theorems over the store model on an abstract clock: the effect of each operation on a record's "
+             "state (reception sets expiry to now + TTL, 1 s with cache-flush, and restarts it; a locally registered record stays "
+             "authoritative; remove / clear forget it), the semantics of the three filters (authoritative never expires and is "
+             "invisible to the cache-only filter; cached visible strictly before expiry; TTL 0 never), and query soundness / "
+             "completeness. The statement over whole histories is NOT proved; it is checked by the slice: hundreds of seeded "
+             "histories executed with real sleeps on a half-second grid against the model and an independent python history spec.",
+        technique="Coq proof of per-operation state transitions and filter semantics + timed model/implementation correspondence",
+        ref="DESIGN.md section 6, C20"),
 }
 
 PENDING_REASON = "not claimed yet: model, theorems and correspondence slice for this property are still being built (see DESIGN.md section 10)"
